@@ -101,6 +101,9 @@ pub struct Workload {
     pub script: Vec<Step>,
     /// Explicitly acknowledge the last received message before dropping the exchange
     pub final_ack: bool,
+    /// A group data message (one unreliable step, multicast to the run's group) instead of a
+    /// unicast exchange on a planted session
+    pub group: bool,
 }
 
 #[derive(Clone, Debug, PartialEq, Eq)]
@@ -117,6 +120,59 @@ pub enum AppKind {
 }
 
 pub const OK: u16 = 0xffff;
+
+/// A real fabric (root CA, one NOC per node, IPK) with one group key set, shared by all nodes of a
+/// run which exchanges group data messages
+#[derive(Clone, Debug)]
+pub struct GroupFabric {
+    pub rcac: Vec<u8>,
+    /// Per node: (operational secret key in canonical form, NOC)
+    pub nodes: Vec<(Vec<u8>, Vec<u8>)>,
+    pub ipk: [u8; 16],
+    pub group_id: u16,
+    pub epoch_key: [u8; 16],
+}
+
+pub const GROUP_NODE_ID_BASE: u64 = 0x6000_0000;
+
+pub fn make_group_fabric(seed: u64, n_nodes: usize, group_id: u16) -> Option<GroupFabric> {
+    use rs_matter::cert::gen::VALID_FOREVER;
+    use rs_matter::cert::MAX_CERT_TLV_AND_ASN1_LEN;
+    use rs_matter::crypto::{CanonPkcSecretKey, Crypto as _, SecretKey as _, SigningSecretKey as _};
+    use rs_matter::onboard::cac::RcacGenerator;
+    use rs_matter::onboard::noc::NocGenerator;
+
+    let crypto = default_crypto(NodeRng(Rng::new(seed ^ 0x6f6f_6f6f)), DAC_PRIVKEY);
+    let mut tries = 0;
+    let (rcac_priv, rcac) = loop {
+        let mut buf = [0u8; MAX_CERT_TLV_AND_ASN1_LEN];
+        let mut gen = RcacGenerator::new(&mut buf);
+        match gen.generate(&crypto, 1, VALID_FOREVER) {
+            Ok((k, c)) => break (k, c.to_vec()),
+            Err(_) if tries < 8 => tries += 1,
+            Err(_) => return None,
+        }
+    };
+    let mut nodes = Vec::new();
+    for n in 0..n_nodes {
+        let sk = crypto.generate_secret_key().ok()?;
+        let mut csr_buf = [0u8; 256];
+        let csr = sk.csr(&mut csr_buf).ok()?;
+        let mut canon = CanonPkcSecretKey::new();
+        sk.write_canon(&mut canon).ok()?;
+        let mut noc_buf = [0u8; MAX_CERT_TLV_AND_ASN1_LEN];
+        let mut gen = NocGenerator::create(rcac_priv.reference(), &rcac, &[], &mut noc_buf).ok()?;
+        let noc = gen.generate(&crypto, csr, GROUP_NODE_ID_BASE + n as u64, &[], VALID_FOREVER).ok()?;
+        nodes.push((canon.reference().access().to_vec(), noc.to_vec()));
+    }
+    let mut r = Rng::new(seed ^ 0x1234_5678);
+    let mut ipk = [0u8; 16];
+    let mut epoch_key = [0u8; 16];
+    for b in ipk.iter_mut().chain(epoch_key.iter_mut()) {
+        *b = r.next_u64() as u8;
+    }
+    Some(GroupFabric { rcac, nodes, ipk, group_id, epoch_key })
+}
 
 pub fn code(r: &Result<(), Error>) -> u16 {
     match r {
@@ -168,6 +224,7 @@ pub struct StackCtx {
     /// probe ping on every planted session
     pub calm: Rc<Cell<bool>>,
     pub probes_done: Rc<Cell<bool>>,
+    pub group_fabric: Option<GroupFabric>,
 }
 
 pub const PROBE_WL_BASE: u16 = 9000;
@@ -237,6 +294,7 @@ struct AppCtx {
     incarnation: u32,
     log: AppLog,
     seed: u64,
+    group_id: Option<u16>,
 }
 
 impl AppCtx {
@@ -401,6 +459,21 @@ async fn initiator_task(
         if wl.start_delay_ms > 0 {
             Timer::after(Duration::from_millis(wl.start_delay_ms as u64)).await;
         }
+        if wl.group {
+            let kv = matter.kv(crate::kv::SimKv::new());
+            let gid = app.group_id.unwrap_or(0);
+            match Exchange::initiate_group(matter, crypto, &kv, NonZeroU8::new(1).unwrap(), gid) {
+                Ok(mut ex) => {
+                    app.ev(wl.id, true, AppKind::Initiated);
+                    let r = do_send(app, &mut ex, wl, 0, true).await;
+                    // Let the transport put it on the wire before the exchange goes away
+                    Timer::after(Duration::from_millis(2)).await;
+                    app.ev(wl.id, true, AppKind::Done { result: code(&r) });
+                }
+                Err(e) => app.ev(wl.id, true, AppKind::InitiateErr(e.code() as u16)),
+            }
+            continue;
+        }
         let p = &planted[wl.planted];
         let my_sid = if p.a == app.node {
             p.a_local_sid
@@ -452,6 +525,7 @@ async fn probe_task(
             start_delay_ms: 0,
             script: vec![Step(0x00), Step(Step::BY_RESPONDER)],
             final_ack: true,
+            group: false,
         })
         .collect();
     let _done = SetOnDrop(probes_done);
@@ -488,6 +562,7 @@ async fn handler_task(
                     start_delay_ms: 0,
                     script: p.script.clone(),
                     final_ack: p.final_ack,
+                    group: false,
                 };
                 if p.seq != 0 || wl.script.is_empty() || wl.script[0].by_responder() {
                     Err(ErrorCode::Invalid.into())
@@ -582,7 +657,43 @@ pub fn stack_root(ctx: StackCtx, shared: Rc<NodeShared>) -> RootFut {
         let crypto = default_crypto(rng, DAC_PRIVKEY);
 
         matter.with_state(|state| {
-            state.fabrics.add_with_post_init(|_| Ok(())).unwrap();
+            match &ctx.group_fabric {
+                None => {
+                    state.fabrics.add_with_post_init(|_| Ok(())).unwrap();
+                }
+                Some(gf) => {
+                    use rs_matter::crypto::{CanonAeadKey, CanonPkcSecretKey};
+                    use rs_matter::fabric::GroupKeyMapping;
+                    use rs_matter::group_keys::{GroupEpochKeyEntry, GroupKeySet};
+                    let (sk_bytes, noc) = &gf.nodes[ctx.node];
+                    let mut sk = CanonPkcSecretKey::new();
+                    sk.access_mut().copy_from_slice(sk_bytes);
+                    let mut ipk = CanonAeadKey::new();
+                    ipk.access_mut().copy_from_slice(&gf.ipk);
+                    state
+                        .fabrics
+                        .add(&crypto, sk.reference(), &gf.rcac, noc, &[], Some(ipk.reference()), 0xFFF1, 1)
+                        .expect("group fabric");
+                    let fabric = state.fabrics.fabric_mut(NonZeroU8::new(1).unwrap()).unwrap();
+                    let mut key = CanonAeadKey::new();
+                    key.access_mut().copy_from_slice(&gf.epoch_key);
+                    let mut ks = GroupKeySet {
+                        group_key_set_id: 1,
+                        group_key_security_policy: 0,
+                        epoch_keys: Default::default(),
+                    };
+                    ks.epoch_keys
+                        .push(GroupEpochKeyEntry { epoch_key: key, epoch_start_time: 1 })
+                        .map_err(|_| ())
+                        .unwrap();
+                    fabric.groups_mut().key_set_add(ks).unwrap();
+                    fabric
+                        .groups_mut()
+                        .key_map_add(GroupKeyMapping { group_id: gf.group_id, group_key_set_id: 1 })
+                        .unwrap();
+                    fabric.groups_mut().add(1, gf.group_id, "g").unwrap();
+                }
+            }
         });
         for p in ctx.planted.iter().filter(|p| p.a == ctx.node || p.b == ctx.node) {
             plant(&matter, &crypto, ctx.node, p).expect("plant session");
@@ -593,6 +704,7 @@ pub fn stack_root(ctx: StackCtx, shared: Rc<NodeShared>) -> RootFut {
             incarnation: ctx.incarnation,
             log: ctx.log.clone(),
             seed: ctx.seed,
+            group_id: ctx.group_fabric.as_ref().map(|g| g.group_id),
         };
 
         let mut tasks: Vec<TaskDef<'_>> = Vec::new();
